@@ -174,6 +174,16 @@ pub fn run(tier: Tier) -> i32 {
         }
     });
     st = st.merge(sb);
+    // postfix chains (projection extent across several postfix operators)
+    let ch = crate::checks::c01::chains(tier.pick(5, 6));
+    let sc = par_sweep(ch.chunks(512).map(|c| c.to_vec()).collect(), |chunk: &Vec<String>, st| {
+        for s in chunk {
+            if rparse::parse(s).is_ok() {
+                check_sentence(s, st);
+            }
+        }
+    });
+    st = st.merge(sc);
     let dis = st.counters.get("MODEL_DISAGREEMENT").cloned().unwrap_or(0);
     rep.guard("every Earley sentence is parsed by the reference parser", dis == 0);
     rep.guard("parenthesised forms differ from the sentence for many cases", st.nontrivial > 1000);
